@@ -94,6 +94,7 @@ static inline StdCall feed_standard(Ctx &c, vnacal_new_t *vnp, const SessionSpec
 	if (out.ncb) { out.cat = g_sim.callbacks.back().category; out.msg = g_sim.callbacks.back().msg; }
 	lc.done();
 	out.err = lc.saved_errno;
+	c11_auto(c, "vnacal_new_add_*", out.rc != 0, out.err);
 	// failed because of the injected allocation failure: re-issue without it
 	if (attempt == 0 && out.fired && out.rc != 0 && !c.violated) { fault_failed(c, "vnacal_new_add_*", out.err, true); pend_err = out.err; continue; }
 	if (attempt == 1 && out.rc == 0) fault_recovered(c, "vnacal_new_add_*", pend_err, true);
